@@ -141,6 +141,8 @@ class Runner:
             if "destr" in step:
                 kw["destructive"] = bool(step["destr"])
             if via == "state":
+                if step.get("partial"):
+                    kw["partial"] = True
                 return tg[0].measure_POVM(ops, **kw)
             if via == "env":
                 return self.o(step["env"]).measure_POVM(ops, *tg, **kw)
